@@ -41,6 +41,9 @@ type ruleSpec struct {
 	Params [][]param // per route
 	Slash  string
 	BT     bool
+	// what is forwarded is rewritten: "" (nothing), "scheme" (only the scheme, the path is written anew all the same),
+	// or a path prefix to add
+	Rewrite string
 }
 
 func (r ruleSpec) String() string {
@@ -49,7 +52,7 @@ func (r ruleSpec) String() string {
 		es[i] = fmt.Sprintf("%s%v", e, r.Params[i])
 	}
 
-	return fmt.Sprintf("{%s %v slash=%q bt=%v}", r.ID, es, r.Slash, r.BT)
+	return fmt.Sprintf("{%s %v slash=%q bt=%v rewrite=%q}", r.ID, es, r.Slash, r.BT, r.Rewrite)
 }
 
 // literal alphabet of unreserved characters only (so that every octet may be re-encoded)
@@ -82,6 +85,8 @@ func genRules(t *rapid.T, slashChoices []string, withParams bool) []ruleSpec {
 
 	for i := 0; i < n; i++ {
 		r := ruleSpec{ID: fmt.Sprintf("r%d", i), Slash: rapid.SampledFrom(slashChoices).Draw(t, "slash"), BT: rapid.Bool().Draw(t, "bt")}
+
+		r.Rewrite = rapid.SampledFrom([]string{"", "", "scheme", "/up", "/u.p/x"}).Draw(t, "rewrite")
 
 		nr := rapid.IntRange(1, 2).Draw(t, "nroutes")
 		for k := 0; k < nr; k++ {
@@ -142,6 +147,14 @@ func toConfig(r ruleSpec) rulecfg.Rule {
 				"X-Captures": `{{ .Request.URL.Captures | toJson | b64enc }}`,
 			}}},
 		},
+	}
+
+	switch r.Rewrite {
+	case "":
+	case "scheme":
+		rc.Backend.URLRewriter = &rulecfg.URLRewriter{Scheme: "http"}
+	default:
+		rc.Backend.URLRewriter = &rulecfg.URLRewriter{PathPrefixToAdd: rulecfg.PrefixAdder(r.Rewrite)}
 	}
 
 	for i, e := range r.Exprs {
@@ -775,6 +788,22 @@ func TestEncodedSlashHandling(t *testing.T) {
 		// path sent upstream
 		if entry == vkit.EntryProxy {
 			up := resp.UpRecord.RequestURI
+
+			for _, r := range rules {
+				if r.ID == wantRule && strings.HasPrefix(r.Rewrite, "/") {
+					vkit.S.Label("slash.forwarded_with_added_prefix")
+
+					if !strings.HasPrefix(up, r.Rewrite) {
+						t.Fatalf("upstream received %s for client path %s: the prefix %s is not there\nrules: %v", up, path, r.Rewrite, rules)
+					}
+
+					up = strings.TrimPrefix(up, r.Rewrite)
+				}
+
+				vkit.S.LabelIf(r.ID == wantRule && r.Rewrite == "scheme", "slash.forwarded_with_rewritten_scheme")
+			}
+
+			vkit.S.LabelIf(strings.HasSuffix(strings.ToUpper(path), "%2F"), "slash.forwarded_path_ends_with_encoded_slash")
 
 			switch setting {
 			case "no_decode":
